@@ -26,7 +26,10 @@ Record ns_cfg := ns_mkcfg {
   ns_nstart : Z;        (* session->nstart *)
   ns_maxrt : Z;         (* session->max_retransmit *)
   ns_udp : bool;        (* proto == COAP_PROTO_UDP: a disconnect leaves the session ESTABLISHED *)
-  ns_fixed : bool       (* RST branch repaired *)
+  ns_fixed : bool;      (* the code as repaired (RST branch, failed retransmission write) *)
+  ns_client : bool      (* COAP_SESSION_TYPE_CLIENT: own socket (closed by a disconnect), sends
+                           requests (an empty ACK sets up a lg_crcv entry); otherwise a server-side
+                           session on the endpoint's socket that sends responses / notifications *)
 }.
 
 Record ns_st := ns_mkst {
@@ -149,7 +152,8 @@ Definition ns_ack (c : ns_cfg) (s : ns_st) (mid : Z) : ns_st * list ns_out :=
   | Some (n, q) =>
     (* an empty ACK of a request: a lg_crcv entry is set up to wait for the separate response *)
     match ns_dec_drain c (ns_set_sq s q) with
-    | (s1, o) => (ns_mkst (ns_open s1) (ns_est s1) (ns_act s1) (ns_dq s1) (ns_sq s1) (mid :: ns_lg s1), o)
+    | (s1, o) => (ns_mkst (ns_open s1) (ns_est s1) (ns_act s1) (ns_dq s1) (ns_sq s1)
+                           (if ns_client c then mid :: ns_lg s1 else ns_lg s1), o)
     end
   end.
 
@@ -232,11 +236,12 @@ Definition ns_fail (c : ns_cfg) (s : ns_st) (reason : Z) : ns_st * list ns_out :
   else
     let held := ns_drops reason (ns_dq s) in
     let sent_nack := match ns_sq s, filter ns_ncon (ns_dq s) with [], [] => false | _, _ => true end in
-    (ns_mkst false (ns_udp c) 0 [] [] [],
+    (ns_mkst (negb (ns_client c)) (ns_udp c) 0 [] [] [],
      first ++ held ++ (if sent_nack then [] else fallback) ++ ns_nacks reason (ns_sq s)).
 
 (* A client session whose socket was closed by a disconnect: coap_send() fails ("Socket
-   closed"), no datagram can arrive any more, its send and delay queues are empty. *)
+   closed"), no datagram can arrive any more, its send and delay queues are empty.  (A server-side
+   session uses the endpoint's socket and goes on: queues emptied, con_active = 0.) *)
 Definition ns_step (c : ns_cfg) (s : ns_st) (e : ns_ev) : ns_st * list ns_out :=
   if negb (ns_open s) then
     match e with NsSubmit _ => (s, [NsRef]) | _ => (s, []) end
@@ -397,7 +402,7 @@ Definition ns_mon_step (c : ns_cfg) (m : ns_mon) (e : ns_ev) (o : list ns_out) :
       match ns_txs o with
       | [] =>
         if forallb (fun p => negb (ns_con p) || Nat.eqb (ns_nack_count (ns_mid p) o) 1) (ns_mpend m)
-        then Some (ns_mkmon false (ns_udp c) [] []) else None
+        then Some (ns_mkmon (negb (ns_client c)) (ns_udp c) [] []) else None
       | _ => None
       end
   end.
